@@ -234,3 +234,38 @@ func VerifHarness_C16_race() {
 	wg.Wait()
 	rt.Assert(rt.RaceCount() == 0, "C16.race.no_data_race_between_pairs")
 }
+
+// VerifHarness_C12_ids_after_failure: BATCHES Produce calls (traces, then logs, then traces ...) during which ONE
+// write inside the IPC writer fails (which one is symbolic; none at all is included): the failed call returns an
+// error and emits nothing; the batch ids of the batches that ARE emitted still count up by one from zero.
+func VerifHarness_C12_ids_after_failure() {
+	p := verifProducer()
+	failAt := rt.Int("failAtWrite")
+	rt.Assume(failAt >= 0)
+	rt.Assume(failAt <= rt.Param("WRITES"))
+	writes := 0
+	ipc.VerifWriteFault = func() bool {
+		writes++
+		return writes-1 == failAt
+	}
+	defer func() { ipc.VerifWriteFault = nil }()
+	next := int64(0)
+	failed := 0
+	for b := 0; b < rt.Param("BATCHES"); b++ {
+		var bar *colarspb.BatchArrowRecords
+		var err error
+		if b%2 == 0 {
+			bar, err = p.BatchArrowRecordsFromTraces(verifFixedTraces(b, b > 0))
+		} else {
+			bar, err = p.BatchArrowRecordsFromLogs(verifFixedLogs(b, true))
+		}
+		if err != nil {
+			failed++
+			continue
+		}
+		rt.Assert(bar.BatchId == next, "C12.ids_after_failure.emitted_ids_count_up_by_one")
+		next++
+	}
+	rt.Assert(failed <= 1, "C12.ids_after_failure.only_the_faulted_call_fails")
+	rt.Reach("C12.ids_after_failure.done")
+}
